@@ -508,7 +508,18 @@ def compare_flatten_lib(pre, post):
     if pops is None or qops is None:
         return out
     if [o["l"] for o in pops] != [o["l"] for o in qops]:
-        out.append(oracles.F(["C11"], "flatten-changed-listing-order", n_before=len(pops), n_after=len(qops)))
+        # known finding D16: flatten re-lists by relation depth; a circuit whose nested listing is not in start-time
+        # order across its sub-circuits (operations of a later block start before operations of an earlier one) comes
+        # out in another order with the very same schedule. Anything else (content or schedule changed, or a circuit
+        # that was listed in time order across blocks) stays a violation.
+        diag = None
+        if pt is not None and qt is not None and len(pt) == len(pops) and len(qt) == len(qops):
+            same_schedule = sorted(([repr(o["l"]), x[1], x[2]] for o, x in zip(pops, pt))) == sorted(([repr(o["l"]), x[1], x[2]] for o, x in zip(qops, qt)))
+            blk = canon.op_block(pops, pcomps or [])
+            inversion = any(blk[i] != blk[j] and pt[j][1] < pt[i][1] for i in range(len(pops)) for j in range(i + 1, len(pops)))
+            if same_schedule and inversion:
+                diag = "D16"
+        out.append(oracles.F(["C11"], "flatten-changed-listing-order", n_before=len(pops), n_after=len(qops), diag=diag))
         return out
     if pt is not None and qt is not None and pt != qt:
         out.append(oracles.F(["C11"], "flatten-changed-schedule", first_diff=next((k for k, (x, y) in enumerate(zip(pt, qt)) if x != y), -1)))
